@@ -344,7 +344,7 @@ impl Acc {
   }
 }
 
-pub const SYNTAX_ALPHABET: [char; 22] = [' ', '\t', '\n', '\\', '\'', '"', '%', '$', '{', '}', '*', '?', ';', '#', 'a', '1', 'n', 'i', '\x1b', '\x7f', '\u{85}', 'é'];
+pub const SYNTAX_ALPHABET: [char; 25] = [' ', '\t', '\n', '\\', '\'', '"', '%', '$', '{', '}', '*', '?', ';', '#', '/', '-', 'a', '1', 'n', 'i', 'I', '\x1b', '\x7f', '\u{85}', 'é'];
 
 pub fn run(ctx: &Ctx) -> Outcome {
   let q = ctx.tier == Tier::Quick;
@@ -409,6 +409,11 @@ pub fn run(ctx: &Ctx) -> Outcome {
     total.run(&same);
   }
   let n_sizes = total.evaluations - before;
+  // (v) patterns made of the unit template's own fragments (what a textual post-processing of the whole line could confuse)
+  let frags = ["/%I", "%I", "/%i", "--dev-file", "--dev-file /%I", "--exclude", "--only-if-keyboard", "--layout-file /etc/totalmapper.json", "ExecStart=", "/usr/bin/totalmapper", "remap", "[Service]", "\n[Install]\nWantedBy=x", "%%", "$$", "\\s", "\\x2a", "/%%I", "x/%Iy", "Battery 50/%Idle"];
+  let before = total.evaluations;
+  for a in frags.iter() { total.run(&[a]); for b in frags.iter() { let ab = format!("{}{}", a, b); total.run(&[&ab]); total.run(&[a, b]); let asb = format!("{} {}", a, b); total.run(&[&asb]); } }
+  let n_frags = total.evaluations - before;
   // the no-exclude unit must read back too
   total.run(&[]);
 
@@ -445,8 +450,9 @@ pub fn run(ctx: &Ctx) -> Outcome {
   o.cov("strings_over_syntax_alphabet", n_strings);
   o.cov("pattern_lists", n_lists);
   o.cov("long_patterns_and_long_lists", n_sizes);
+  o.cov("template_fragment_patterns", n_frags);
   o.cov("exhaustive", true);
-  o.cov("rule", format!("(i) every Unicode scalar value except NUL as a one-character pattern and embedded as a<c>b; (ii) every string of length 1..={} over the {}-character syntax alphabet; (iii) every list of 1..=3 patterns over {} short patterns; (iv) every alphabet character repeated n times and lists of n patterns for n around every power of two up to 257; plus the empty list. Each input goes through the real build_service_text and the ExecStart line is read back by the reference reader; distinct_nontrivial = inputs (all distinct by construction) whose pattern text had to be changed by the escaper, i.e. the raw pattern does not appear verbatim in the line.", maxlen, alpha.len(), sub.len()));
+  o.cov("rule", format!("(i) every Unicode scalar value except NUL as a one-character pattern and embedded as a<c>b; (ii) every string of length 1..={} over the {}-character syntax alphabet; (iii) every list of 1..=3 patterns over {} short patterns; (iv) every alphabet character repeated n times and lists of n patterns for n around every power of two up to 257; (v) 20 fragments of the unit template itself, alone, concatenated and paired; plus the empty list. Each input goes through the real build_service_text and the ExecStart line is read back by the reference reader; distinct_nontrivial = inputs (all distinct by construction) whose pattern text had to be changed by the escaper, i.e. the raw pattern does not appear verbatim in the line.", maxlen, alpha.len(), sub.len()));
   o.cov("samples", json!([
     {"patterns": ["*Mouse*"], "exec_start": crate::udev_utils::verif_build_service_text(&["*Mouse*"]).split('\n').find(|l| l.starts_with("ExecStart=")).unwrap_or("")},
     {"patterns": ["it's 100% $HOME"], "exec_start": crate::udev_utils::verif_build_service_text(&["it's 100% $HOME"]).split('\n').find(|l| l.starts_with("ExecStart=")).unwrap_or("")},
